@@ -10,8 +10,8 @@ class Hostile(concretise.Theme):
     regex = False
     meas = sorted([" m,0", 'a"q"', "a,b\r\nc", "b\nnl", "ba;'x'", "cé\U0001F600"] + ['d%02d,"x"' % i for i in range(90)])
     strs = sorted([" lead", "a,1", 'a"2"', "b\r\n3", "bü\n4", "c\t;5 "] + ["d%02d\n" % i for i in range(90)])
-    tagkeys = ["k,1", "_tag_x", 't_"k3"']
-    fieldkeys = ["f\n1", "_field_y", "f_ 3"]
+    tagkeys = sorted(["k,1", "_tag_x", 't_"k3"'])
+    fieldkeys = sorted(["f\n1", "_field_y", "f_ 3"])
 
 
 class Latin(concretise.Theme):
